@@ -14,7 +14,7 @@ import (
 func init() {
 	register(&Prop{
 		ID:          "C06",
-		Decided:     "(1) operator tables: every case of expr.compareFloats/compareStrings denotes its relation under all orderings (NaN unordered); every operator the property names (+ - * /, the six comparisons with aliases, AND/OR/NOT, LIKE, IS) is accepted by the tokenizer's tables and has a case in each evaluator switch of its kind; (2) NULL discipline: in evaluateOperatorValue no arithmetic is reachable once an operand is NULL and the result is then NULL; in compareValues a NULL operand yields false for every non-IS operator before any numeric/string comparison; (3) built-in functions cannot take the caller down: every call of Function.Execute outside its own package is dominated by a successful Validate of the same function and arguments, or runs inside a frame that converts panics to errors, or is the one reviewed exception; in every Execute body a constant index args[k] is below the lower bound of len(args) implied by the constructor's minArgs (when Validate checks the count) and by dominating len(args) tests; argument-derived type assertions are comma-ok; (4) history independence, structural part: the mutated fields of the process-wide ExprBridge and FunctionRegistry are exactly the reviewed caches (a new process-wide cache fails); (5) both evaluators and the stream resolve functions only through the registry (the registry map is touched only by registry methods).",
+		Decided:     "(1) operator tables: every case of expr.compareFloats/compareStrings denotes its relation under all orderings (NaN unordered); every operator the property names (+ - * /, the six comparisons with aliases, AND/OR/NOT, LIKE, IS) is accepted by the tokenizer's tables and has a case in each evaluator switch of its kind; (2) NULL discipline: in evaluateOperatorValue no arithmetic is reachable once an operand is NULL and the result is then NULL; in compareValues a NULL operand yields false for every non-IS operator before any numeric/string comparison; (3) built-in functions cannot take the caller down: every call of Function.Execute outside its own package is dominated by a successful Validate of the same function and arguments, or runs inside a frame that converts panics to errors, or is the one reviewed exception; in every Execute body a constant index args[k] is below the lower bound of len(args) implied by the constructor's minArgs (when Validate checks the count) and by dominating len(args) tests; argument-derived type assertions are comma-ok; (4) history independence, structural part: the mutated fields of the process-wide ExprBridge and FunctionRegistry are exactly the reviewed caches (a new process-wide cache fails); (5) both evaluators and the stream resolve functions only through the registry (the registry map is touched only by registry methods). Also: a process-wide cache stores the result of a fallible computation only after its error was found nil; the direct function-call path cuts an argument list only out of text that is one whole call.",
 		NotDecided:  "arithmetic, precedence, CASE branch selection, every function's documented value, agreement of the three evaluators on values, independence from the process-wide program cache (expr-lang internals), dynamic indices and slices inside Execute bodies.",
 		Assumptions: []string{"expr-lang's vm.Run converts a panic of a called function into an error (read in the module cache, vm.go: defer/recover in Run)"},
 		Run:         runC06,
